@@ -33,6 +33,17 @@ def universe_path(name):
         return p
     ensure_dirs()
     p = os.path.join(WORK, "universe_%s.json" % name)
+    if name.startswith("exp"):
+        # run-time universe (depends on the wall clock); name exp<unix time>
+        import glob
+        for q in glob.glob(os.path.join(WORK, "universe_exp*.json")):
+            try:
+                if time.time() - os.path.getmtime(q) > 3600:
+                    os.remove(q)
+            except OSError:
+                pass
+        U.u_exp(int(name[3:])).write(p)
+        return p
     U.u_random(int(name[1:]) if name.startswith("r") else int(name)).write(p)
     return p
 
